@@ -63,7 +63,7 @@ def analyse_int_int(mod, k, S, D, fr, fs):
     bits, signed = model.INT_TYPES[model.canon(D)]
     lo, hi = model.int_range(S)
     part = cells.analyse(roots, lo, hi, ret_views={"conv": (bits, signed), "conva": (bits, signed)},
-                         arith={"conv": dg["conv"].arith, "conva": dg["conva"].arith})
+                         arith={"conv": dg["conv"].arith, "conva": dg["conva"].arith}, wrap_roots=("lossy", "ovf", "trunc"))
     C = model.common_type(S, D)
     P = model.promote(C)
     clo, chi = model.int_range(C)
@@ -73,9 +73,16 @@ def analyse_int_int(mod, k, S, D, fr, fs):
     b5 = max(-((-max(plo, clo * Dd, dlo * Dd)) // N), clo)
     nob = ndis = 0
     for cell, res in part:
+        ub = [(nm, res[nm]) for nm in ("lossy", "ovf", "trunc") if isinstance(res[nm], cells.Bad)]
+        if ub:
+            nm, v = ub[0]
+            fs.append((key + "|checker-%s-undefined" % nm, "evaluating the %s<%s> checker itself is undefined for x=%d: %s at %s (%s)"
+                       % (nm, D, cell.example(), v.kind, mod.where(v.node.dbg) if v.node is not None and v.node.dbg else "?", key), ""))
+            nob += 1
+            continue
         fl, fo, ft = (cells.as_bool(res[n]) for n in ("lossy", "ovf", "trunc"))
         if None in (fl, fo, ft):
-            raise AnalysisBroken("%s: checker undecided on %r" % (key, cell))
+            raise AnalysisBroken("%s: checker undecided on %r: %r" % (key, cell, {n: res[n] for n in ("lossy", "ovf", "trunc")}))
         nob += 1
         ok = True
         if fl != (fo or ft):
